@@ -28,8 +28,15 @@ impl Instant {
 }
 
 impl Instant {
+    /// std's Instant (Linux: a timespec with i64 seconds) overflows exactly when the seconds leave the
+    /// i64 range; `Instant + Duration` then PANICS ("overflow when adding duration to instant"). The
+    /// seam mirrors that: code that adds an absurd duration fails here as it fails on std. Sums inside
+    /// std's range but beyond this clock's u64 nanoseconds saturate (a time that never arrives).
     pub fn checked_add(&self, d: Duration) -> Option<Instant> {
-        Some(*self + d)
+        if d.as_secs() > (i64::MAX as u64).saturating_sub(self.0 / 1_000_000_000 + 1) {
+            return None;
+        }
+        Some(Instant(self.0.saturating_add(d.as_nanos().min(u64::MAX as u128) as u64)))
     }
     pub fn checked_sub(&self, d: Duration) -> Option<Instant> {
         self.0.checked_sub(d.as_nanos().min(u64::MAX as u128) as u64).map(Instant)
@@ -61,7 +68,7 @@ impl SubAssign<Duration> for Instant {
 impl Add<Duration> for Instant {
     type Output = Instant;
     fn add(self, d: Duration) -> Instant {
-        Instant(self.0.saturating_add(d.as_nanos().min(u64::MAX as u128) as u64))
+        self.checked_add(d).expect("overflow when adding duration to instant")
     }
 }
 impl Sub<Instant> for Instant {
